@@ -167,7 +167,7 @@ class Expression:
     }
 
     unary_operators: ClassVar[dict[str, Callable[[int], int]]] = {
-        "u": lambda a: -a,
+        "-u": lambda a: -a,
         "~": lambda a: ~a,
     }
 
@@ -182,7 +182,7 @@ class Expression:
         "*": 5,
         "/": 5,
         "%": 5,
-        "u": 6,
+        "-u": 6,
         "~": 6,
         "sizeof": 6,
     }
@@ -204,7 +204,7 @@ class Expression:
 
         for i in range(len(tokens)):
             if tokens[i] == "-" and (i == 0 or tokens[i - 1] in operators or tokens[i - 1] == "("):
-                tokens[i] = "u"
+                tokens[i] = "-u"
 
         return tokens
 
